@@ -4,7 +4,9 @@ import time
 from contracts.integrate_rt import rt_integrate  # noqa: F401
 
 LEVEL = 'other'
-EXPLANATION = ('Raise path of _integrate under contract (exc_ensures): the reason is the first violated limit in the order '
+EXPLANATION = ('The limits in force are the ones the caller configured: zero_angle and trajectory leave the calculator\'s '
+               'configuration unchanged on normal AND exceptional exit (postconditions, every Config field), for a long-used '
+               'calculator. Raise path of _integrate under contract (exc_ensures): the reason is the first violated limit in the order '
                'velocity, drop, altitude; the limits are those of this calculator\'s Config; the last row of the attached '
                'partial trajectory is the post-step state that violated it; last_distance is that row\'s distance; every '
                'state kept after a step is within all three limits (step clause + invariant); rows recorded before the stop '
